@@ -69,6 +69,9 @@ def main():
                 sigs = sorted(set(l.split(" ")[1] for l in err.splitlines() if l.startswith("violation ")))
                 res["checks"][pid] = {"exit": rc, "caught": rc == 1, "signatures": sigs[:12], "wall_s": round(time.time() - t0, 1)}
             return res
+        if os.path.exists(os.path.join(d, "eval.json")):       # a re-confirmation (e.g. the patch was ported to a new HEAD)
+            old = json.load(open(os.path.join(d, "eval.json")))
+            res["first_evaluation_checks"] = old.get("first_evaluation_checks", old.get("checks"))
         touches_c = any(l.startswith("+++") and (".c" in l[-3:] or ".h" in l[-3:]) for l in open(patch))
         # demo on the clean tree
         rc0, out0 = run_demo(wt, os.path.join(d, "demo.py"), True)
